@@ -433,3 +433,13 @@ Definition check_event_rate (rep : bool) (bsz stp : Z) (cs : list events) (got :
 
 (* a concrete sample-sequential filter for the `_refuted` witnesses: y[n] = x[n] + 2 y[n-1] (mod 1009) *)
 Definition cfilt (st x : Z) : Z * Z := let y := (x + 2 * st) mod 1009 in (y, y).
+
+(* added for the coverage audit: event_rate with a fractional block_step (= stp / den).  The harness multiplies every
+   position, span and block_size by den, so the window arithmetic is again over Z; only the counts per emitted block
+   are compared here (the s0 / fs attributes of those blocks are judged by the oracle). *)
+Definition check_event_rate_counts (rep : bool) (bsz stp : Z) (cs : list events) (got : option (list (list Z))) : bool :=
+  eqb_option (eqb_list eqb_listZ)
+             (match outs_of (run (er_step rep bsz stp) None cs) with
+              | Some o => Some (map r_counts o)
+              | None => None
+              end) got.
